@@ -326,7 +326,7 @@ Definition frozen_newFileSet : list (string * string) :=
     ("endif", "");
     ("endrange", "");
     ("assign", "bads := make(map[string]bool)");
-    ("assign", "ignore := func(name string) bool { for _, i := range ignoreDirs { if strings.HasPrefix(name, i) { return true } } for _, i := range ignores { matched, err := path.Match(i, name) if err != nil { if !bads[i] { log.Printf(""bad ignore pattern: %q: %s"", i, err) } bads[i] = true continue } if matched { return true } } return false }");
+    ("assign", "ignore := func(name string) bool { for _, i := range ignoreDirs { if i == """" || strings.HasPrefix(name, i+""/"") { return true } } for _, i := range ignores { matched, err := path.Match(i, name) if err != nil { if !bads[i] { log.Printf(""bad ignore pattern: %q: %s"", i, err) } bads[i] = true continue } if matched { return true } } return false }");
     ("range", "_, sel := range r.Select");
     ("decl", "var matches []string");
     ("if", "strings.HasSuffix(sel, ""/**"") || sel == ""**""");
